@@ -1,0 +1,34 @@
+// Copyright 2018 The Wuffs Authors.
+//
+// SPDX-License-Identifier: Apache-2.0 OR MIT
+
+//go:build verif
+// +build verif
+
+package check
+
+import (
+	a "github.com/google/wuffs/lang/ast"
+)
+
+// VerifFactsEnabled turns the fact observer on. It only exists in builds with
+// the "verif" tag.
+var VerifFactsEnabled bool
+
+// VerifFacts maps a statement node to the snapshots of the checker's fact
+// list taken just before that statement was bounds-checked (one snapshot per
+// time the checker visited the statement). A run-time monitor evaluates each
+// fact in the concrete state whenever execution reaches the statement.
+var VerifFacts = map[*a.Node][][]*a.Expr{}
+
+// VerifResetFacts forgets all recorded snapshots.
+func VerifResetFacts() { VerifFacts = map[*a.Node][][]*a.Expr{} }
+
+func (q *checker) verifObserveFacts(n *a.Node) {
+	if !VerifFactsEnabled {
+		return
+	}
+	snap := make([]*a.Expr, len(q.facts))
+	copy(snap, q.facts)
+	VerifFacts[n] = append(VerifFacts[n], snap)
+}
